@@ -37,7 +37,6 @@ m = {
     'not_applicable': na,
     'notes': 'Entry point ./check <ID> [--tier quick|thorough] [--replay f]. VERIF_SEED selects the Hypothesis seed (derandomize is off). known_findings.json lists open/fixed findings; regressions/<ID>/*.json are replayed first on every run.',
 }
-if not na:
-    del m['not_applicable']
+# (an empty not_applicable list is kept on purpose: every listed property is claimed)
 json.dump(m, open(os.path.join(ROOT, 'MANIFEST.json'), 'w'), indent=1)
 print('checks:', [c['property_id'] for c in checks], 'n/a:', [x['property_id'] for x in na])
